@@ -7,14 +7,59 @@ import (
 	"fmt"
 	"os"
 	"sync"
+	"time"
 
 	"go.lstv.dev/util/uu"
 )
 
+// longLived: g goroutines draw bursts of 200 IDs every millisecond until the duration has passed; only version, variant and
+// duplicates inside a burst are checked (the run exists for the race detector).
+func longLived(g int, d time.Duration) {
+	start := time.Now()
+	var wg sync.WaitGroup
+	var bad, dups, total int64
+	var mu sync.Mutex
+	for i := 0; i < g; i++ {
+		wg.Add(1)
+		go func() {
+			defer wg.Done()
+			var b, du, t int64
+			for time.Since(start) < d {
+				seen := map[uu.ID]struct{}{}
+				for k := 0; k < 200; k++ {
+					id := uu.RandomID()
+					t++
+					if id.Version() != 4 || id.Variant() != 1 {
+						b++
+					}
+					if _, ok := seen[id]; ok {
+						du++
+					}
+					seen[id] = struct{}{}
+				}
+				time.Sleep(time.Millisecond)
+			}
+			mu.Lock()
+			bad, dups, total = bad+b, dups+du, total+t
+			mu.Unlock()
+		}()
+	}
+	wg.Wait()
+	fmt.Printf("race-supplement long-lived goroutines=%d duration=%v draws=%d duplicates=%d bad_version_or_variant=%d\n", g, d, total, dups, bad)
+	if dups > 0 || bad > 0 {
+		os.Exit(1)
+	}
+}
+
 func main() {
 	g := flag.Int("g", 64, "goroutines")
 	n := flag.Int("n", 10000, "draws per goroutine")
+	d := flag.Duration("d", 0, "if set: keep drawing (in bursts) for this long instead - a long-lived process, for state the library changes on a timer")
 	flag.Parse()
+	if *d > 0 {
+		longLived(*g, *d)
+		return
+	}
 	res := make([][]uu.ID, *g)
 	var wg sync.WaitGroup
 	for i := 0; i < *g; i++ {
